@@ -318,7 +318,13 @@ static int remoteSync(MPT_INTERFACE(output) *out, int timeout)
 			msg.cont = 0;
 			msg.clen = 0;
 			
-			if (ans->cmd(ans->arg, &msg) < 0) {
+			pos = ans->cmd(ans->arg, &msg);
+			/* processed reply must not remain as output data */
+			if (!(od->con.out.state & MPT_OUTFLAG(Active))
+			    && (buf = od->con.out.buf._buf)) {
+				buf->_used = 0;
+			}
+			if (pos < 0) {
 				return 0;
 			}
 			continue;
